@@ -877,16 +877,18 @@ def evaluate_attrs(chk, groups, built, results, corpus_mode=False, name=None):
                         chk.violation("leaf %s announced with size %d but the part in BODY[] has %d octets" % (p, bl["size"], len(ml["body"])), dict(payload0, part="c", path=list(p)))
                 if got is not None and ml is not None:
                     if got != ml["body"] or bl["size"] != len(got):
-                        cls = None
+                        hint = " with different content"
                         if got == ml["body"] + "\r\n" and bl["size"] + 2 == len(got):
-                            cls = "trailing_crlf"
-                            stats["crlf_leaves"] += 1
-                        elif ml["enc"] == "BASE64" and not already_wrapped(got) and got.replace("\r", "").replace("\n", "") == ml["body"].replace("\r", "").replace("\n", ""):
-                            cls = "rewrap"
-                            stats["rewrap_leaves"] += 1
+                            hint = " (the CRLF that ends the stored content is taken for the delimiter's: defect trailing_crlf, repaired once, is back)"
+                        elif ml["enc"] == "BASE64" and got.replace("\r", "").replace("\n", "") == ml["body"].replace("\r", "").replace("\n", ""):
+                            hint = " (BODY[] holds a re-wrapped text: defect rewrap, repaired once, is back)"
                         chk.violation("leaf %s: BODYSTRUCTURE announces %d octets, BODY[] holds %d octets there, BODY[%s] returns %d octets%s" % (
-                            p, bl["size"], len(ml["body"]), ".".join(map(str, p)), len(got), "" if cls else " with different content"),
-                            dict(payload0, part="c", path=list(p), got=got, in_body=ml["body"]), cls=cls)
+                            p, bl["size"], len(ml["body"]), ".".join(map(str, p)), len(got), hint),
+                            dict(payload0, part="c", path=list(p), got=got, in_body=ml["body"]))
+                    if got.endswith("\r\n"):
+                        stats["crlf_leaves"] += 1
+                    if ml["enc"] == "BASE64" and not already_wrapped(got):
+                        stats["rewrap_leaves"] += 1
                 leaf_cases.append(("(raw_%s, %s, rows_%s, %s, (%s, %s, %d%%N))" % (tag, "true" if single else "false", tag, coq_path(p), E.s(bl["type"]), E.s(bl["enc"] or ""), bl["size"]),
                                    {"msg": m["text"], "path": list(p), "announced": bl}))
             known_paths = set(bs_nodes(main["bs"]))
@@ -1054,15 +1056,9 @@ def check_envelope(chk, m, env, payload0, stats):
             chk.violation("ENVELOPE %s is %r, the header field is %r" % (k, got[k], exp[k]), dict(payload0, part="d", field=k))
     for k in ("from", "sender", "reply_to", "to", "cc", "bcc"):
         if got[k] != exp[k]:
-            cl = addr_classes(m, k) if k != "bcc" else set()
-            cls = None
-            if "name_comma" in cl:
-                cls = "name_comma"
-            elif "name_quoted_pair" in cl:
-                cls = "name_quoted_pair"
-            if cls:
-                stats["special_names"] += 1
-            chk.violation("ENVELOPE %s is %r, the header field holds %r" % (k, got[k], exp[k]), dict(payload0, part="d", field=k), cls=cls)
+            chk.violation("ENVELOPE %s is %r, the header field holds %r" % (k, got[k], exp[k]), dict(payload0, part="d", field=k))
+        elif k != "bcc" and addr_classes(m, k):
+            stats["special_names"] += 1
 
 
 # ---------------------------------------------------------------------------
@@ -1145,23 +1141,39 @@ def run_envelope(chk, n):
            {"op": "batch", "fn": "parseAddressList", "cases": [{"a": [C.latin(a)]} for a in addrs]},
            {"op": "batch", "fn": "QuoteOrNIL", "cases": [{"a": [C.latin(a.encode("latin-1"))]} for a in quotes]},
            {"op": "batch", "fn": "BuildEnvelope", "cases": [{"a": [C.latin(a)]} for a in envs]}]
+    AF = ["From", "Sender", "Reply-To", "To", "Cc", "Bcc"]
+    ops.append({"op": "batch", "fn": "extractHeader", "cases": [{"a": [C.latin(a), f]} for a in envs for f in AF]})
     res = C.run_ops(ops)
     if res.get("crashed"):
         chk.broken_obligation("driver crashed on the envelope suite: %s" % res.get("stderr", "")[:300], {"suite": "envelope"})
         return 0
     o = [x["rs"] for x in res["obs"]]
+    # the library reading (net/mail) of every address-list text: parameter mail_parse of the model
+    texts = sorted(set(addrs) | set(C.unlatin(v).decode("latin-1") for v in o[4] if isinstance(v, str) and v))
+    res2 = C.run_ops([{"op": "batch", "fn": "mailParse", "cases": [{"a": [C.latin(t)]} for t in texts]}])
+    if res2.get("crashed"):
+        chk.broken_obligation("driver crashed on the envelope suite (mailParse): %s" % res2.get("stderr", "")[:300], {"suite": "envelope"})
+        return 0
+    oracle = dict(zip(texts, res2["obs"][0]["rs"]))
+
+    def coq_oracle(v):
+        if not isinstance(v, list):
+            return "None"
+        return "(Some [%s])" % "; ".join("(%s, %s)" % (cstr(C.unlatin(v[i]).decode("latin-1")), cstr(C.unlatin(v[i + 1]).decode("latin-1"))) for i in range(0, len(v), 2))
 
     def ostr(v):
         return "None" if isinstance(v, dict) else "(Some %s)" % cstr(v)
-    body = COQ_HDR + "Definition ostr_eqb (a b : option str) := match a, b with Some x, Some y => str_eqb x y | None, None => true | _, _ => false end.\n"
+    body = COQ_HDR + "Definition mp_table : list (str * option (list (str * str))) := [\n%s].\n" % ";\n".join("(%s, %s)" % (cstr(t), coq_oracle(oracle[t])) for t in texts)
+    body += "Definition mail_parse (s : str) : option (list (str * str)) := match find (fun e => str_eqb (fst e) s) mp_table with Some e => snd e | None => None end.\n"
+    body += "Definition ostr_eqb (a b : option str) := match a, b with Some x, Some y => str_eqb x y | None, None => true | _, _ => false end.\n"
     body += "Definition eh_cases : list (str * str * str) := [\n%s].\n" % ";\n".join("(%s, %s, %s)" % (cstr(r), cstr(h), cstr(v)) for (r, h), v in zip(raws, o[0]))
     body += "Definition eh_bad := Eval vm_compute in bad (map (fun '(r, h, v) => str_eqb (extract_header r h) v) eh_cases).\nPrint eh_bad.\n"
     body += "Definition pa_cases : list (str * option str) := [\n%s].\n" % ";\n".join("(%s, %s)" % (cstr(a), ostr(v)) for a, v in zip(addrs, o[1]))
-    body += "Definition pa_bad := Eval vm_compute in bad (map (fun '(a, v) => ostr_eqb (parse_address_list a) v) pa_cases).\nPrint pa_bad.\n"
+    body += "Definition pa_bad := Eval vm_compute in bad (map (fun '(a, v) => ostr_eqb (parse_address_list mail_parse a) v) pa_cases).\nPrint pa_bad.\n"
     body += "Definition q_cases : list (str * str) := [\n%s].\n" % ";\n".join("(%s, %s)" % (cstr(a), cstr(v)) for a, v in zip(quotes, o[2]))
     body += "Definition q_bad := Eval vm_compute in bad (map (fun '(a, v) => str_eqb (quote_or_nil a) v) q_cases).\nPrint q_bad.\n"
     body += "Definition be_cases : list (str * option str) := [\n%s].\n" % ";\n".join("(%s, %s)" % (cstr(a), ostr(v)) for a, v in zip(envs, o[3]))
-    body += "Definition be_bad := Eval vm_compute in bad (map (fun '(a, v) => ostr_eqb (build_envelope a) v) be_cases).\nPrint be_bad.\n"
+    body += "Definition be_bad := Eval vm_compute in bad (map (fun '(a, v) => ostr_eqb (build_envelope mail_parse a) v) be_cases).\nPrint be_bad.\n"
     rc, log = C.coq_eval_cases("C14_envelope", body)
     if rc != 0:
         chk.broken_obligation("in-Coq evaluation of the envelope cases failed:\n" + log[-1500:], {"suite": "envelope"})
